@@ -275,6 +275,8 @@ pub enum FaultMode {
     /// only `flush` fails - everything written before it has reached the screen: the k-th flush (`at`
     /// counts flushes here) and the n-1 flushes after it
     Flushes(u8),
+    /// the k-th call and the one after it fail, everything later works
+    Pair,
 }
 
 #[derive(Clone, Copy, Debug)]
@@ -282,6 +284,9 @@ pub struct FaultPlan {
     pub at: usize,
     pub mode: FaultMode,
     pub kind: io::ErrorKind,
+    /// when set, the error is built from this raw OS error code (as a real terminal device reports it)
+    /// instead of from `kind`
+    pub os_code: Option<i32>,
 }
 
 /// State of the screen at a flush.
@@ -460,12 +465,16 @@ impl VTerm {
             let fire = match f.mode {
                 FaultMode::Flushes(n) => matches!(call, Call::Flush) && flush_idx >= f.at && flush_idx < f.at + n as usize,
                 FaultMode::Once => idx == f.at,
+                FaultMode::Pair => idx == f.at || idx == f.at.saturating_add(1),
                 FaultMode::AllLater => idx >= f.at,
                 FaultMode::EverySecond => idx >= f.at && (idx - f.at) % 2 == 0,
             };
             if fire {
                 g.faults_fired += 1;
-                return Err(io::Error::new(f.kind, "injected terminal fault"));
+                return Err(match f.os_code {
+                    Some(code) => io::Error::from_raw_os_error(code),
+                    None => io::Error::new(f.kind, "injected terminal fault"),
+                });
             }
         }
         if !g.emulate {
